@@ -112,10 +112,10 @@ def top_frame(frames):
 def validate(ck, name, resp):
     ex = resp["extra"]
     evs = ex["startup"] + ex["run"]
-    rows = [{"nproc": ex["procs"], "g": 0, "ev": "header", "tab": ""}]
+    rows = [{"nproc": ex["procs"], "g": 0, "ev": "header", "tab": "", "var": ""}]
     for e in evs:
         g, ev, key = (e.split(" ", 2) + [""])[:3]
-        rows.append({"nproc": 0, "g": int(g), "ev": ev, "tab": key})
+        rows.append({"nproc": 0, "g": int(g), "ev": ev, "tab": key, "var": key.split("@")[0]})
     res = run_tlc("Trace_C20", files={"c20.ndjson": ndjson(rows)}, workers=1, timeout_s=1200, prefix=("V ",))
     if res.violation:
         raise pvlib.Broken("Trace_C20 invariant violated: " + res.violation)
@@ -151,7 +151,10 @@ def run():
     r2 = run_tlc("MC_C20", cfg="MC_C20_unlocked.cfg", expect_violation=True)
     if r2.violation != "NoRace":
         raise pvlib.Broken("the unlocked-SymHash2Str variant of PanSymtab no longer violates NoRace (vacuous model)")
-    ck.cov["nonvacuity"] = "MC_C20_unlocked violates NoRace as expected"
+    r3 = run_tlc("MC_C20", cfg="MC_C20_split.cfg", expect_violation=True)
+    if r3.violation != "ConsistentWhenFree":
+        raise pvlib.Broken("the split-publish variant of PanSymtab no longer violates ConsistentWhenFree (vacuous model)")
+    ck.cov["nonvacuity"] = "MC_C20_unlocked violates NoRace and MC_C20_split violates ConsistentWhenFree, as expected"
     binary = pvlib.build_worker("hooked")
     info = dict(pvlib.HOOKGEN_INFO)
     if info.get("sites", 0) < 4 or not info.get("locks"):
@@ -183,6 +186,8 @@ def run():
             rc, writer = lockstate(rows, consumed + 1)
             held = "W" if writer == ev["g"] else ("R" if rc.get(ev["g"], 0) > 0 else "none")
             sig = f"C20:{ev['ev']}:{ev['tab']}:holding={held}"
+            if ev["ev"] == "AutoUnlock" and held == "W":
+                sig = "C20:AutoUnlock:tables-published-in-two-critical-sections"
             ck.reject(sig, f"event #{consumed + 1} '{ev['g']} {ev['ev']} {ev['tab']}' is not enabled in PanLockset "
                            f"(goroutine holds {held}; writer={writer})",
                       {"n": ngor, "event_index": consumed + 1, "event": ev, "context": rows[max(1, consumed - 8):consumed + 2],
@@ -202,7 +207,7 @@ def run():
                 ck.reject("C20:fatal:concurrent-map", end[-600:], {"n": ngor, "end": end[-2000:]})
                 continue
             raise pvlib.Broken(f"race driver failed: {end[-800:]}")
-        rows = [{"nproc": ngor, "g": 0, "ev": "header", "tab": ""}]
+        rows = [{"nproc": ngor, "g": 0, "ev": "header", "tab": "", "var": ""}]
         seen = set()
         for rep in reports:
             tops = [(kind, top_frame(fr)) for kind, fr in rep]
@@ -212,11 +217,11 @@ def run():
             if key in seen:
                 continue
             seen.add(key)
-            rows.append({"nproc": 0, "g": 1, "ev": "Unsync", "tab": key, "report": [[k, fr[:6]] for k, fr in rep[:2]]})
+            rows.append({"nproc": 0, "g": 1, "ev": "Unsync", "tab": key, "var": "", "report": [[k, fr[:6]] for k, fr in rep[:2]]})
         for k, (rd, out) in enumerate(zip(rounds, resp["rounds"])):
             norm = lambda x: re.sub(r"_g\d+", "_gN", x)
             if any(norm(c) != norm(out["ref"]) for c in out["conc"]):
-                rows.append({"nproc": 0, "g": 1, "ev": "ResultDiffers", "tab": f"round {k}", "report": [rd["prog"], out["conc"], out["ref"]]})
+                rows.append({"nproc": 0, "g": 1, "ev": "ResultDiffers", "tab": f"round {k}", "var": "", "report": [rd["prog"], out["conc"], out["ref"]]})
         h = resp.get("http") or {}
         if not str(h.get("start", "")).startswith("val:") or h.get("stop") != "val:nil":
             raise pvlib.Broken(f"the HTTP phase did not run: start={h.get('start')!r} stop={h.get('stop')!r}")
@@ -226,7 +231,7 @@ def run():
         for hh_, hq in ((h, http), (h2, http2)):
             for k, (a, b) in enumerate(zip(hh_["conc"], hh_["ref"])):
                 if a != b:
-                    rows.append({"nproc": 0, "g": 1, "ev": "ResultDiffers", "tab": f"http request {k}", "report": [json.dumps(hq["requests"][k]), [a], b]})
+                    rows.append({"nproc": 0, "g": 1, "ev": "ResultDiffers", "tab": f"http request {k}", "var": "", "report": [json.dumps(hq["requests"][k]), [a], b]})
         nrace += len(rounds) * ngor + len(progs) + 2 * (len(http["requests"]) + len(http["main"]))
         if len(rows) > 1:
             res = run_tlc("Trace_C20", files={"c20.ndjson": ndjson([{k: v for k, v in r.items() if k != "report"} for r in rows])}, workers=1, timeout_s=600, prefix=("V ",))
